@@ -211,6 +211,12 @@ def shrink(case, still_fails, max_tests=300):
                 cur = cand
                 changed = True
         for key in sorted(cur['preds']):
+            cand = dict(cur)
+            cand['preds'] = {k: v for k, v in cur['preds'].items() if k != key}
+            if ok(cand):
+                cur = cand
+                changed = True
+                continue
             v, body = cur['preds'][key]
             if body:
                 cand = dict(cur)
